@@ -65,6 +65,34 @@ impl Property for C05Prop {
     }
 
     fn gen_case(&self, tape: &mut Tape, tier: Tier) -> Option<Json> {
+        if tape.chance(1, 6) {
+            // a union of 3-4 members of one kind whose components partially subsume each other: what
+            // the checker derives from it (field, element, result, parameter types ...) is a fold over
+            // the members in hash order
+            const COMPONENTS: [&str; 16] = [
+                "int", "float", "string", "[int]", "[int|float]", "[int|float|string]", "[string]", "(int, [int])", "(int, [int|string])",
+                "mut int", "mut (int|float)", "()->int", "()->int|float", "struct{a: [int]}", "struct{a: [int|string]}", "()",
+            ];
+            let wrap = tape.below(9);
+            let n = 3 + tape.below(2);
+            let members: Vec<String> = (0..n)
+                .map(|_| {
+                    let c = *tape.pick(&COMPONENTS);
+                    match wrap {
+                        0 => format!("struct{{a: {c}}}"),
+                        1 => format!("struct{{a: {c}, b: int}}"),
+                        2 => format!("[{c}]"),
+                        3 => format!("({c}, int)"),
+                        4 => format!("(int, {c})"),
+                        5 => format!("mut {}", if c.contains('|') || c.contains("->") { format!("({c})") } else { c.to_string() }),
+                        6 => format!("()->{}", if c.contains("->") { format!("({c})") } else { c.to_string() }),
+                        7 => format!("({c})->int"),
+                        _ => format!("()->(bool, {c})"),
+                    }
+                })
+                .collect();
+            return Some(json!({"kind": "queries", "u": members.join("|"), "reps": tier.of(6, 24)}));
+        }
         match tape.weighted(&[3, 2, 2]) {
             0 => {
                 let built = case::build(tape, Profile::GENERAL).ok()?;
@@ -157,9 +185,57 @@ impl Property for C05Prop {
                 stats.sample(3, || json!({"a": ta, "b": tb, "matches": m0.0}));
                 Verdict::Pass
             }
+            "queries" => {
+                let u = case["u"].as_str().unwrap_or("int").to_string();
+                let Ok(t0) = Type::from_str(&u) else {
+                    return Verdict::Discard("union text does not parse");
+                };
+                stats.nontrivial(&u);
+                let first = queries(&t0);
+                for r in 0..reps {
+                    let u2 = u.clone();
+                    let again = on_fresh_thread(move || Type::from_str(&u2).map(|t| queries(&t)).unwrap_or_else(|_| "does not parse".into()));
+                    stats.evals(14);
+                    if again != first {
+                        return fail("C05:types:queries", format!("what the checker derives from `{u}` differs between two parses (repetition {r})\n  first: {first}\n  later: {again}"));
+                    }
+                }
+                stats.sample(3, || json!({"union": u, "derived": first}));
+                Verdict::Pass
+            }
             _ => Verdict::Discard("unknown kind"),
         }
     }
+}
+
+/// everything the checker derives from a type when it is used as an operand
+fn queries(t: &Type) -> String {
+    let one = |f: &dyn Fn() -> Option<Type>| match std::panic::catch_unwind(std::panic::AssertUnwindSafe(f)) {
+        Ok(Some(t)) => Ty::from_real(&t).print(),
+        Ok(None) => "-".to_string(),
+        Err(_) => "panic".to_string(),
+    };
+    let many = |f: &dyn Fn() -> Option<std::sync::Arc<[Type]>>| match std::panic::catch_unwind(std::panic::AssertUnwindSafe(f)) {
+        Ok(Some(ts)) => format!("({})", ts.iter().map(|t| Ty::from_real(t).print()).collect::<Vec<_>>().join(", ")),
+        Ok(None) => "-".to_string(),
+        Err(_) => "panic".to_string(),
+    };
+    format!(
+        "field a: {} | field b: {} | index: {} | element: {} | cell content: {} | iterator element: {} | result: {} | params: {} | .0: {} | .1: {} | flattened: {} | tuple len: {:?} / {:?}",
+        one(&|| t.field_type("a")),
+        one(&|| t.field_type("b")),
+        one(&|| t.index_result()),
+        one(&|| t.element_type()),
+        one(&|| t.mut_element_type()),
+        one(&|| t.iter_element()),
+        one(&|| t.return_type()),
+        many(&|| t.params()),
+        one(&|| t.tuple_element_at(0)),
+        one(&|| t.tuple_element_at(1)),
+        many(&|| t.clone().flatten_tuple()),
+        t.tuple_len(),
+        t.min_tuple_len(),
+    )
 }
 
 pub fn run(session: &Session) -> i32 {
@@ -222,7 +298,7 @@ pub fn run(session: &Session) -> i32 {
         session.run_tapes(&C05, session.tier.of(6_000, 200_000), 600, 0);
     }
     session.finish(
-        "each case is parsed and run 6 (quick) / 24 (thorough) times, every repetition on a fresh thread (fresh hash keys): all unary cells of the operator x operand-type matrix (60 operand types incl. unions of tuples of different lengths, of structs, muts, arrays, functions, iterators), a hand-written list of order-sensitive programs (exhausted iterators over union element types, struct literals with effectful initialisers, modules, tuple unions, type filters with unions; 4x the repetitions), the documentation corpus, tape-generated typed programs and random binary matrix cells; acceptance, error kind, static type (union members and struct fields sorted by the harness) and canonical value must be identical across repetitions. For pairs of generated types: instances parsed on different threads must be ==, hash equally under one fixed hasher, answer `matches`, `|` (both orders) and conjoin identically. Non-trivial = the case contains a union with >= 2 members or a struct with >= 2 fields; distinct by text.",
+        "each case is parsed and run 6 (quick) / 24 (thorough) times, every repetition on a fresh thread (fresh hash keys): all unary cells of the operator x operand-type matrix (60 operand types incl. unions of tuples of different lengths, of structs, muts, arrays, functions, iterators), a hand-written list of order-sensitive programs (exhausted iterators over union element types, struct literals with effectful initialisers, modules, tuple unions, type filters with unions; 4x the repetitions), the documentation corpus, tape-generated typed programs and random binary matrix cells; acceptance, error kind, static type (union members and struct fields sorted by the harness) and canonical value must be identical across repetitions. For unions of 3-4 members of one kind with partially subsuming components, everything the checker derives from the union (field, index, element, cell-content, iterator-element, result and parameter types, tuple components and lengths) must be the same structure on every parse. For pairs of generated types: instances parsed on different threads must be ==, hash equally under one fixed hasher, answer `matches`, `|` (both orders) and conjoin identically. Non-trivial = the case contains a union with >= 2 members or a struct with >= 2 fields; distinct by text.",
         false,
         &["hash keys come from the operating system: VERIF_SEED fixes the cases, not the iteration orders; on a correct tree the check is deterministic, detection of an order-dependent defect is probabilistic (>= 1 - 2^-(K-1) for a two-way choice)"],
     )
